@@ -14,11 +14,13 @@ func Get() *bytes.Buffer {
 	if b == nil {
 		return &bytes.Buffer{}
 	}
+	verifPool("get", b)
 	return b.(*bytes.Buffer)
 }
 
 // Put returns a buffer into the pool.
 func Put(b *bytes.Buffer) {
 	b.Reset()
+	verifPool("put", b)
 	bpool.Put(b)
 }
